@@ -319,16 +319,21 @@ def child_main(jobfile):
 def run_child(job, workdir, tag, timeout=60, strace_out=None):
     """Run the crash child in its own interpreter.  Returns (rc, report, stderr)
     where report is the list of token lists it wrote; rc None on timeout."""
-    from vf.core import PY, VERIF, child_env
+    from vf.core import PY, VERIF, SCRATCH, child_env
     jf = os.path.join(workdir, "job-%s.json" % tag)
     with open(jf, "w") as f:
         json.dump(job, f)
-    cmd = [PY, "-B", "-m", "vf.logx", "child", jf]
+    # hundreds of interpreters per run: byte code is cached, but only inside this
+    # run's own scratch directory (deleted with it), so it is always compiled
+    # from the tree under test by this run and never reused by another run
+    env = child_env({"PYTHONPYCACHEPREFIX": os.path.join(os.environ.get("VERIF_SCRATCH", SCRATCH), "pyc")})
+    env.pop("PYTHONDONTWRITEBYTECODE", None)
+    cmd = [PY, "-m", "vf.logx", "child", jf]
     if strace_out:
         cmd = ["strace", "-f", "-s", "64", "-e", "trace=write,fsync,rename,openat,close",
                "-o", strace_out] + cmd
     try:
-        p = subprocess.run(cmd, cwd=VERIF, env=child_env(), capture_output=True, timeout=timeout)
+        p = subprocess.run(cmd, cwd=VERIF, env=env, capture_output=True, timeout=timeout)
     except subprocess.TimeoutExpired:
         return None, [], "timeout"
     rep = [l[len(MARK):].split(" ") for l in p.stdout.decode("utf-8", "replace").split("\n")
